@@ -1165,9 +1165,13 @@ func main() {
 		fmt.Printf("C03 sidx schedule search: %d batches, <=%d writes, <=%d maintenance halves\n", len(sx.batches), sx.maxWrites, sx.maxMaint)
 	}
 	sst := opsearch.Run(opsearch.Config{Name: "c03sidx", MaxDepth: sx.maxWrites + sx.maxMaint, Workers: 16, Cleanup: func() { os.RemoveAll(base) }}, sx.expand)
+	strm, strmSched := streamSearch(sc, base, thorough, isWorker) // stream.go
 	if isWorker {
 		if os.Getenv("C03_POOL") != "" {
 			poolWorker(base, thorough)
+		}
+		if os.Getenv("C03_SPOOL") != "" {
+			streamPoolWorker(base, thorough)
 		}
 		os.RemoveAll(base)
 		return
@@ -1276,7 +1280,8 @@ func main() {
 	r.Assume("the reference model (Go maps: version-resolved union) is correct")
 	fmt.Printf("C03: measure states=%d transitions=%d pool_states=%d | sidx states=%d transitions=%d | distinct_outcomes=%d\n",
 		st.States, st.Transitions, ps.Histories+bs.Histories, sst.States, sst.Transitions, st.DistinctOutcomes+sst.DistinctOutcomes)
-	os.RemoveAll(base) // Finish exits the process, deferred calls do not run
+	streamReport(r, strm, strmSched, thorough) // stream.go: violations, merge pools, coverage
+	os.RemoveAll(base)                         // Finish exits the process, deferred calls do not run
 	r.Finish()
 }
 
@@ -1296,6 +1301,10 @@ func replay(p string) {
 	}
 	base, _ := os.MkdirTemp("/dev/shm", "c03r-")
 	defer os.RemoveAll(base)
+	if strings.HasPrefix(a.Artefact.Phase, "stream") {
+		replayStream(a.Artefact.Phase, a.Artefact.Hist, a.Key, base+"/t")
+		return
+	}
 	if a.Artefact.Phase == "sidx" {
 		res := executeSidx(base+"/t", a.Artefact.Hist)
 		fmt.Println("history:", a.Artefact.Hist)
